@@ -4,11 +4,15 @@
 Sub-checks (case kinds):
   nest    (a) re-entrancy: one (outer, inner) pair of formulas; the inner evaluation is interposed at every
           callback position of the outer one, on every target (other / same / newly constructed parser), and to
-          depth 2 with a third formula; a sample of the runs is compared with the Lean interleaving model
-          (`interleave.batch`)
+          depth 2 with a third formula; a third of the callbacks interpose it inside the host's `except XLError:`
+          block, while an XL error the host raised itself is being handled; the pool includes formulas whose
+          functions raise XL errors (RAISERS) and whose host function MKNA answers with an error object of the
+          host's own making (HOSTMADE; these pairs run last); a sample of the runs is compared with the Lean
+          interleaving model (`interleave.batch`)
   bind    (b) isolation of bindings: variables / predefined names / functions / builtin names / listeners
           (on, once) of P and a journal listener that edits the argument list it is handed are invisible on a Q
-          created before and a Q created after; oracle only
+          created before and a Q created after; one `globals` case: the process-wide interpreter settings read
+          before, during (from a host function, a listener, a nested evaluation) and after evaluations; oracle only
   sched   (c) threads on distinct parsers under a harness-controlled scheduler: every lexer operation
           (`Lexer.input`, `Lexer.token`) waits for its turn according to the schedule; compared with the Lean
           interleaving model (`interleave.run owned …`)
@@ -51,11 +55,37 @@ RULE = ('(a) nest: all ordered pairs (outer, inner) of a seeded pool of formulas
         'calls, cell / range '
         'references, arrays, strings, syntax errors, illegal characters, unknown names, error literals, raising host '
         'functions, the '
-        'empty formula) quick takes the first 5 + 9 seeded, thorough all; plus up to 6 (thorough 16; +3 per step of '
-        'scale) generated '
+        'empty formula) quick takes the first 5 + 9 seeded, thorough all; of the 7 RAISERS (a function, built-in or the '
+        'host\'s, ends by RAISING an XL error, which the evaluator turns into the call\'s value: SUM / MAX / AVERAGE over an '
+        'array holding NA(), SQRT(-1), LN(0), RAISE_NUM() / RAISE_NA(), under ISNA / IFNA / IFERROR / ISERROR / IF or bare, '
+        'each with a CB call) quick takes 2 seeded, thorough all; of the 3 HOSTMADE (the host function MKNA ANSWERS with '
+        'error.XLError("#N/A"), an error object of the host\'s own making, not one of the library\'s constants: CB(MKNA()), '
+        'IFNA(MKNA(),CB(2))&"|", ISNA(MKNA())+CB(1)) quick takes 1 seeded, thorough all; plus up to 6 (thorough 16; +3 per '
+        'step of scale) generated '
         'ones, alternately a C04 tree (c04.gen_top, depth 1-3, 30% with white space added) and a C08 tree (c08.gen, depth 1-3, '
         'error-leaf probability 0.15 / 0.4) with the hook function CB wrapped around each sub-expression with probability 0.4, '
-        'duplicates dropped: up to 20^2 = 400 pairs quick (32^2 at scale 5), 57^2 = 3249 thorough. The outer formula runs on the '
+        'duplicates among the generated ones dropped: up to 23^2 = 529 pairs quick (35^2 at scale 5), 67^2 = 4489 thorough. '
+        'The C04 trees are c04.gen_top WITHOUT the leaves C04 switches on for its own cases only (no error variables, no '
+        'non-dyadic decimals, no blank operands): 60% arithmetic / 25% one comparison / 15% & chain of 2-4 integer operands '
+        'over prime integers, dyadic decimals, leading-dot, percent and power literals, 4 variables, 5 cell references in '
+        'either case, + - * /, unary minus, ID(), parenthesised comparisons and (5% of the operands) parenthesised '
+        'concatenations as numbers, boundary twins in 30% of the comparisons; minimal parentheses. The C08 trees are c08.gen: 4% '
+        'a TEXT that spells an error code (literal, concatenation of two parts, 30% through ID, 30% lower case), 56% '
+        'numeric, 25% one comparison (a quarter of these between two & nodes), 15% a & node; leaves are prime integers or, with '
+        'the error-leaf probability, C08\'s error producers (error literals, e_<tag> variables, k/0, "a"+1, NA(), SUM(1/0), '
+        'RAISE_<TAG>(), PYRAISE(), ID(1/0), the families date arithmetic before 1900 / text under + - * / / division by '
+        'zero-likes / failing builtin calls / these inside calls / the cells C3, D4) or (15% of them) an error x array node '
+        '(inline arrays, lst_* names, A1:A3 ranges); rendered fully parenthesised by c03.render8 - C08\'s wraps (IFERROR / '
+        'IFNA / IS* / ERROR.TYPE and the falsy fallbacks 0 / FALSE / "") are applied in c08.forms, not in c08.gen, and do not '
+        'occur here. All pool formulas are evaluated under THIS rig\'s bindings (equip), not C04\'s / C08\'s: C04\'s 4 variables '
+        'and 5 cells shifted by the parser\'s offset, txt, lv (set by the listener), e_<tag> / RAISE_<TAG> for C08\'s 9 codes, '
+        'PYRAISE, MKNA, ID (the identity, not re-entrant), OFF, CB, every range a 2x2 block; the names only C08 binds (dt_*, '
+        'blank, lst_*) are unknown names here (#NAME? after a callVariable event) and the cells C3 / D4 / Z9 blank - what a '
+        'formula evaluates to does not matter, only that it does so alike alone and nested. The nest cases are sorted '
+        '(stably) so that the pairs whose outer, inner or third formula is one of HOSTMADE come after all the others (intent: the '
+        'solo runs of the other formulas, taken and cached at first use, precede the nest runs in which the host makes an '
+        'error object of its own, so that what such an object leaves behind in the process shows against them). '
+        'The outer formula runs on the '
         'pre-built parser A; A, B and N (built inside a callback) carry the same variables / functions / listeners with values '
         'shifted by 0 / 1000 / 2000, so an answer from another parser\'s bindings shows; A and B live for the whole process. For '
         'each pair the inner evaluation is '
@@ -66,12 +96,30 @@ RULE = ('(a) nest: all ordered pairs (outer, inner) of a seeded pool of formulas
         'own callback positions evaluate a third formula (seeded from the pool per pair; quick: 4 seeded (first position, target) '
         'x every second position x a seeded target; '
         'thorough: every first position and target x every second position x every target). '
+        'handling: every plan (depth 1 and depth 2) gets, with probability 0.33, a seeded one of C08\'s 9 error codes under '
+        '`handling`, and independently with probability 0.33 the depth-2 trigger of a plan gets one too: the callback then '
+        'raises that XL error itself (error.from_message), catches it, and interposes the evaluation INSIDE its '
+        '`except XLError:` block, i.e. while an XL error the host raised is being handled; the other callbacks interpose it '
+        'directly. A plan kept by shrink (`only`) keeps its handling. '
         'Oracle: every evaluation\'s record and callback-event sequence equal those of its solo run on a parser of the same '
-        'profile (A / B / a fresh N of a separate solo rig), as many evaluations ran as planned, no callback fires outside an '
-        'evaluation or during an evaluation on another parser. Model: about 6 evenly spaced passing runs per pair (none with the '
-        'empty formula) as interleave.batch on the observed order of lexer operations: tokens fetched per activation; pairs '
-        'without such a run are oracle-only. '
-        '(b) bind (oracle-only; 42 cases = 10 kinds x names x 2 seeded values, an integer in 2..10^6-1, a text): variable (4 names, '
+        'profile (A / B / a fresh N of a separate solo rig; solo runs are made outside any except block, with no trigger), '
+        'as many evaluations ran as planned, no callback fires outside an '
+        'evaluation or during an evaluation on another parser (in the solo runs of the outer and the inner formula too). '
+        'Model: of the n runs of a pair every max(1, n // 6)-th one (6-11 runs when n >= 6, else all), if it passed and none of '
+        'its formulas is the empty one, '
+        'as interleave.batch on the observed order of lexer operations: tokens fetched per activation, every activation '
+        'finished; pairs '
+        'without such a run are oracle-only. The except block (handling) and the host-made error object are not part of the '
+        'request: the model sees formula texts, fetch counts and the order of lexer operations only. '
+        '(b) bind (oracle-only; 43 cases: one `globals` case + 42 = 10 kinds x names x 2 seeded values, an integer in '
+        '2..10^6-1, a text v0..v99): globals (fresh parser P with the host functions PROBE, which records the settings and '
+        'answers 1, and NEST, which evaluates its text argument on P re-entrantly, and a callCellValue listener that records '
+        'the settings and sets 2; the 6 formulas PROBE()+1, A1+PROBE(), SUM(A1:B2)+PROBE(1,2), NEST("PROBE()+A1")*2, '
+        '1/0+PROBE(), PROBE( evaluated in a row; the 10 process-wide interpreter settings recursion limit, switch interval, '
+        'decimal context precision and rounding, locale (LC_ALL), environment TZ, int_max_str_digits, threading.stack_size, '
+        'sys.dont_write_bytecode, repr of the SIGALRM handler are read before, at every PROBE / listener call - i.e. during '
+        'an evaluation, a nested one included - and after all six: every snapshot must equal the one before, and at least '
+        'one must have been taken during an evaluation; the six records are kept but not judged), variable (4 names, '
         'one spelled like a builtin), predefined name overridden (TRUE, NULL), custom function (3 names), function named like a '
         'builtin (SUM, MAX), callVariable (2 names) / callCellValue / callRangeValue / callFunction listener, once-listener, '
         'journal (a callFunction listener on P that edits the argument list it is handed, P evaluating the probe once; 4 probes '
@@ -82,10 +130,13 @@ RULE = ('(a) nest: all ordered pairs (outer, inner) of a seeded pool of formulas
         '(c) sched: 2-3 threads, each on its own long-lived parser (thread i always the same one), every Lexer.input/Lexer.token '
         'call (= one step) gated by a schedule (list of thread ids, finished threads skipped, round-robin tail): quick = ALL '
         'interleavings of va*2 | 1/0 (5+5 steps: 252) and of 1 @ | nope (3+3: 20) + 250 x scale seeded schedules (3 threads with '
-        'probability 0.4); thorough = these + ALL of CB(7) | -va+1 (6+6: 924) and 2+*3 | A1+2 (4+5: 126) + 1500 seeded 3-thread '
-        'schedules; seeded ones: formulas from 14 short ones + up to 30 pool formulas under 40 characters, bursts of '
+        'probability 0.4); thorough = these + ALL of CB(7) | -va+1 (6+6: 924) and 2+*3 | A1+2 (4+5: 126) + 1500 x scale seeded 3-thread '
+        'schedules; seeded ones: formulas from 14 short ones + the first 30 non-empty pool formulas under 40 characters '
+        '(the nest pool in its order: hand-written, RAISERS, HOSTMADE, generated; thorough: 40 hand-written ones qualify, so '
+        'all 30 are hand-written), bursts of '
         '1-3 turns, 30% '
-        'cut to a seeded prefix. Oracle: each thread\'s record equals its solo record on that parser; model (interleave.run): the '
+        'cut to a seeded prefix; the step counts come from solo runs on the thread parsers made while the cases are '
+        'generated. Oracle: each thread\'s record equals its solo record on that parser; model (interleave.run): the '
         'tokens each thread fetched. stress (oracle-only): 4 '
         'free-running threads x 300 (thorough 900) evaluations of that formula set on distinct parsers, switch '
         'interval 1 µs, while '
@@ -96,7 +147,7 @@ RULE = ('(a) nest: all ordered pairs (outer, inner) of a seeded pool of formulas
         'of 15 (builtin calls, va+1), each run 2 (thorough 3) times in a fresh interpreter: one parser per formula, the FIRST '
         'evaluations of the process in threads released together by a barrier; repr(result) and error equal those of the formula '
         'on a fresh parser in the harness process. '
-        '(d) sheet: 200 x scale (thorough 1500) seeded random spreadsheets (2-4 x 2-4 cells, thorough 2-5 x 2-5; constants: '
+        '(d) sheet: 200 x scale (thorough 1500 x scale) seeded random spreadsheets (2-4 x 2-4 cells, thorough 2-5 x 2-5; constants: '
         'integers -3..12, 0, blank, logicals, the texts ab / xy / empty, the fractions 2.5 / -0.5 / 0.25; a cell holds a formula '
         'with probability 0.35 / 0.5 / 0.7 per sheet: depth 1-2 over cell references (letters in mixed case, 12% '
         '$-forms), integers '
@@ -136,7 +187,8 @@ RULE = ('(a) nest: all ordered pairs (outer, inner) of a seeded pool of formulas
         'Time limits are wall-clock (time.time): 180 s per sched case, 120 s stress, 120 s per cold process, '
         '60 s per other-thread sheet evaluation; exceeded = harness error (exit 2), never a verdict. '
         'Non-trivial = nest / sheet: a nested (or other-thread) evaluation actually ran; sched: the effective order switches '
-        'threads at least twice; bind: the binding is live on P (P answers differently or its listener was called); stress, cold: '
+        'threads at least twice; bind: the binding is live on P (P answers differently or its listener was called), globals: at least one snapshot '
+        'was taken during an evaluation; stress, cold: '
         'always. Bulk counting (weight): a nest / sheet case counts every evaluation (sheet: reference runs included), every run '
         'with nesting and every model comparison it made; stress counts its evaluations and constructed parsers.')
 TRUSTED = ['granularity: the controlled scheduler and the Lean model interleave at lexer operations (Lexer.input / Lexer.token); '
@@ -156,6 +208,19 @@ TRUSTED = ['granularity: the controlled scheduler and the Lean model interleave 
            'solo runs are the yardstick and are taken once per (formula, parser profile / thread parser) and cached; the thread '
            'parsers and the pre-built parsers A, B, P, Q, R serve all cases of the process, so the yardstick itself is taken on '
            'parsers with a history; cold-start cases are measured against the warm harness process',
+           'nest, handling / host-made errors: the model request carries formula texts, fetch counts and the order of lexer '
+           'operations only; that a callback interposes its evaluation inside its own `except XLError:` block, and that the host '
+           'function MKNA answers with an XLError object of its own making, are outside the model and judged by the oracle '
+           'alone, against solo runs made outside any except block. Running the HOSTMADE pairs last orders the nest cases only: '
+           'the solo runs that count the steps of the sched formulas are made on the thread parsers while the cases are '
+           'generated, and in the quick tier a HOSTMADE formula can be among them',
+           'nest: the formulas borrowed from C04 / C08 (c04.gen_top, c08.gen) are taken as texts only; their own oracles '
+           '(exact values, which error wins) are not applied here and the bindings are this rig\'s, not theirs - the solo run '
+           'is the only yardstick',
+           'bind, globals: the 10 interpreter settings watched are the harness\'s choice (a setting not in the list is not '
+           'watched), they are read only at the calls of the host function PROBE and of the callCellValue listener and after '
+           'the six evaluations (a change undone between two reads is not seen), the SIGALRM handler is compared by repr; '
+           'the records of the six probe formulas are not judged',
            'the wall-clock limits of the scheduler, the stress, cold-start and other-thread runs are harness errors, not verdicts',
            'sheet cases: the Lean model has no host that evaluates inside a listener; the model comparison binds the cells and '
            'ranges of every formula to the values of the bottom-up reference run of the REAL implementation (inner outcomes are '
@@ -186,6 +251,16 @@ ASSUMPTIONS = ['"outcome" = the record returned by Parser.parse, compared exactl
                'bind, journal: the argument list handed to a callFunction listener belongs to that evaluation: a host '
                'that edits it '
                'on P must not change what Q computes (what P itself computes afterwards is not judged)',
+               'bind, globals: the process-wide interpreter settings (recursion limit, switch interval, decimal context, locale, '
+               'TZ, int_max_str_digits, thread stack size, dont_write_bytecode, SIGALRM handler) belong to the host and to every '
+               'other parser and thread of the process: an evaluation - failing ones and nested ones included - leaves them as it '
+               'found them, also while it is in progress (as seen from a host function and a listener it calls)',
+               'nest: a host may start an evaluation from inside an `except XLError:` block of its own, while an XL error it '
+               'raised itself is being handled; that is an ordinary nested evaluation, and it and the evaluations around it '
+               'yield what they yield alone (outside any except block)',
+               'nest: a host function may answer with an XLError object it constructed itself (error.XLError("#N/A")) instead of '
+               'one of the library\'s constants; formulas that call it fall under the statement like any other, and making '
+               'such an object does not change what other evaluations of the process yield',
                'sheet cases: a listener that evaluates the formula of a cell and hands its result to the setter is a host '
                'whose answer depends on the nested evaluation only through that evaluation\'s outcome; "the outcome '
                'it yields when '
